@@ -7,6 +7,7 @@ import CookModel.Lemmas.MetaDiagsParser
 import CookModel.Lemmas.MetaDiagsFront
 import CookModel.Lemmas.MetaFrontDiags
 import CookModel.Lemmas.MetaAudit
+import CookModel.Lemmas.FrontMatterDoc
 /-
   C14  Metadata-only parsing agrees with full parsing.
 
@@ -768,5 +769,54 @@ example : (Col.metadataOut (α := Rat) (fun t => t.span) { metaMap := [("a".toLi
     (Col.metadataOut (α := Rat) (fun t => t.span)
       { frontMatter := some (Text.fromStr "a: 1\n".toList 4), oldStyle := false }) = .inr ⟨4, 9⟩ := by
   constructor <;> rfl
+
+/-! ### front matter interpreted: the loop of `process_frontmatter` modelled (Analysis/FrontMatter.lean) -/
+
+/-- **`C14_agree` for the metadata a caller sees, front matter interpreted.**  `FM.fullMetadata fe c` is
+    `content.metadata.map` of a result: the mapping `process_frontmatter` stores (the decoded mapping
+    without the entries a validator excluded) when there is front matter that decodes, otherwise the
+    `>>` map.  For EVERY input (with or without front matter), extension set and environment, and every
+    `fe` (result of the YAML decoder on the slice, validator verdicts, converter): whenever `parse` and
+    `parse_metadata` both have output, the two metadata maps are equal — keys, values, order.  The
+    decoder itself remains a parameter (`fe.decode`, applied to the text of the slice both entry points
+    hand over); the loop, the removals and the diagnostics are the model's. -/
+theorem C14_agree_interpreted (env : Env) (fe : FM.Env α) (input : Str)
+    (r1 r2 : Col α) (h1 : (parseRecipe (α := α) env input).output = some r1)
+    (h2 : (parseMetadata (α := α) env input).output = some r2) :
+    FM.fullMetadata fe r1 = FM.fullMetadata fe r2 := by
+  obtain ⟨e1, _, _, _, e5, _⟩ := C14_agree env input r1 r2 h1 h2
+  unfold FM.fullMetadata
+  rw [e1, e5]
+
+/-- **The front-matter diagnostics agree as well.**  For every input WITH front matter: `parse_metadata`
+    has output, and whenever `parse` has output too, (1) both ran `process_frontmatter` on the same slice
+    with the same outcome (`FM.outcomeOf`: stored mapping, servings, diagnostics with their labels);
+    (2) the WHOLE report of `parse_metadata` is the list of front-matter diagnostics, and the report of
+    `parse` is that same list followed by its other diagnostics (`FM.fullDiags`); (3) the metadata
+    maps are equal, namely the stored mapping (empty after a YAML error).  The validator is the same
+    function of (call number, key, value) in both runs — a stateful callback that answers differently
+    in the second run is outside the statement. -/
+theorem C14_front_matter_interpreted_agree (env : Env) (fe : FM.Env α) (input : Str) (fm : FrontMatter)
+    (h : parseFrontmatter env.cs input = some fm) (r1 : Col α)
+    (h1 : (parseRecipe (α := α) env input).output = some r1) :
+    ∃ r2 : Col α, (parseMetadata (α := α) env input).output = some r2 ∧
+      FM.outcomeOf fe (parseRecipe (α := α) env input) = FM.outcomeOf fe (parseMetadata (α := α) env input) ∧
+      FM.fullDiags fe (parseMetadata (α := α) env input) = (FM.processFrontmatter fe (FM.docYaml fm)).diags.toArray ∧
+      FM.fullDiags fe (parseRecipe (α := α) env input) =
+        FM.fullDiags fe (parseMetadata (α := α) env input) ++ (parseRecipe (α := α) env input).diags ∧
+      FM.fullMetadata fe r1 = FM.fullMetadata fe r2 ∧
+      FM.fullMetadata fe r1 = ((FM.processFrontmatter fe (FM.docYaml fm)).map).getD [] := by
+  obtain ⟨a1, a2, a3, _⟩ := FM.fmd_full env fe input fm h r1 h1
+  obtain ⟨r2, b0, b1, b2, b3⟩ := FM.fmd_meta (α := α) env fe input fm h
+  exact ⟨r2, b0, by rw [a1, b1], b2, by rw [a2, b2], by rw [a3, b3], a3⟩
+
+/-! non-vacuity: on `---⏎a: 1⏎---⏎>> [mode]: x⏎x⏎` (front matter, MODES on) both parses have output
+    (example above); with a decoder giving `{a: 1}` and no validator the front-matter report is empty and
+    the stored mapping has one entry -/
+example : ((FM.processFrontmatter (α := Rat) ⟨fun _ => .ok [(.str "a".toList, .num ⟨some 1, "1".toList⟩)], none,
+      ⟨[], fun _ => none⟩, fun _ => false⟩ (FM.docYaml ⟨"a: 1\n".toList, 4, ">> [mode]: x\nx\n".toList, 13⟩)).diags = [] ∧
+    ((FM.processFrontmatter (α := Rat) ⟨fun _ => .ok [(.str "a".toList, .num ⟨some 1, "1".toList⟩)], none,
+      ⟨[], fun _ => none⟩, fun _ => false⟩ (FM.docYaml ⟨"a: 1\n".toList, 4, ">> [mode]: x\nx\n".toList, 13⟩)).map.map List.length) =
+      some 1) := by decide
 
 end Cook
